@@ -137,6 +137,7 @@ T_Silent ==
   /\ \/ \E c \in Conns : \E s \in pubctx[c].todo : FanOut(c, s, FALSE, KeepHint(pubctx[c].msg.m)) \/ FanOut(c, s, TRUE, FALSE)
      \/ \E c \in Conns : cl[c].pc = "sub.acked" /\ \E i \in 1..Len(cl[c].pkt.subs) : \E m \in retained : SubReplay(c, i, m)
      \/ \E c \in Conns : CleanupStart(c)
+     \/ \E c \in Conns : SubApply(c) \/ UnsubApply(c)
 
 \* jump over the rest of a trace that cannot be continued (both paths meet again at its end)
 T_Skip ==
